@@ -84,7 +84,7 @@ theorem ok_fields_partial (cfg : Config ℝ) (ext : Ext ℝ) (s : Setup ℝ)
     s.pump = cfg.pump.asBeam cfg.crystal.toSetup ∧
     s.pumpBandwidth = cfg.pump.bandwidthNm * nano ∧
     s.pumpAveragePower = cfg.pump.averagePowerMw * 1.0 ∧
-    s.deff = cfg.deffPmPerVolt * pmPerVolt ∧
+    s.deff = toDeff cfg.deffPmPerVolt ∧
     (s.pp.isOff = true ↔ cfg.poling = .off) ∧
     (s.crystal = cfg.crystal.toSetup ∨
       ∃ th, ext.theta cfg.crystal.toSetup s.signal s.pump = .ok th ∧
